@@ -19,6 +19,35 @@ CHECKS = {
             'of roCreate untouched) and C02_moves_swaps_conserve, proved in Coq; correspondence run on stories with 0..n items, '
             'paragraph layouts, repeated item IDs across stories, random histories.',
             'section 5 C02', 'Coq theorems on a Gallina model + extracted-model differential run'),
+    'C05': ('proof', 'Theorem C05_failed_merge_is_identity: for every well-formed running order, every class and every message with an '
+            'integer messageID, if ro + m raises the document is unchanged (the model carries the state at the point of failure, so '
+            'this is about the order of checks and edits in all 24 merges); C05_nonstrict_sequences: a non-strict merge equals the fold '
+            'over the messages that did not fail. Correspondence: k-th-of-n unresolvable IDs, swap/move operand combinations, '
+            'exhaustive small message spaces, random histories, non-strict collections with every failing subset.',
+            'section 5 C05', 'Coq theorems on a Gallina model + extracted-model differential run'),
+    'C07': ('proof', 'Theorems C07_rodelete_marks, C07_terminal (all classes, any later history), C07_never_spurious (invariant over any '
+            'history without roDelete) proved in Coq; the serialise / re-read / re-classify round trip is checked on the real code at '
+            'every step of random histories (and proved for the model codec in C14).',
+            'section 5 C07', 'Coq theorems (induction over histories) + differential histories'),
+    'C08': ('proof', 'Theorems C08_factor (classify = classify_spec o features), C08_noninterference, C08_total, C08_table proved in Coq. '
+            'PARTIAL: malformed XML -> MosInvalidXML and file = str = bytes, default = -W error are runtime clauses checked by '
+            'differential runs (expat and file I/O are not modelled).',
+            'section 5 C08', 'Coq theorems on the decision function + differential classification under two interpreter configurations'),
+    'C09': ('proof', 'Theorems C09_strict and C09_nonstrict characterise the model merge loop (prefix / first error; one '
+            'MosMergeNonStrictWarning per failing message; state = sequential application). Correspondence: random mixed sequences, '
+            'both modes, from_strings and from_files, compared with the model and with a hand fold of ro += msg.',
+            'section 5 C09', 'Coq theorems (induction over the message list) + differential collections'),
+    'C10': ('proof', 'Theorems C10_perm_invariant (any permutation of readers with distinct IDs sorts to the same list), C10_numeric '
+            '(ascending in the numeric ID). Correspondence: all permutations of order-sensitive message sets with mixed digit counts.',
+            'section 5 C10', 'Coq theorems (sortedness + permutation uniqueness) + exhaustive permutations'),
+    'C11': ('proof', 'Theorems C11_accept_iff and C11_selected proved in Coq for the model validation; exhaustive multisets run through the '
+            'real constructor under default flags and python -O.',
+            'section 5 C11', 'Coq theorems + exhaustive small collections under two interpreter configurations'),
+    'C12': ('proof', 'Theorems C12_classify, C12_merge (all 25 classes: outcome is success, MosMergeError or MosCompletedMergeError under '
+            'wf_ro, schema_ok, timing_ok; the model contains the built-in exception paths) and C12_nonstrict_terminates, proved in Coq '
+            'using the invariant wf_ro along histories. Correspondence: all classes x blank/unknown/repeated/self-referential IDs x '
+            'running orders with/without timing metadata x histories.',
+            'section 5 C12', 'Coq theorems on a Gallina model + extracted-model differential run'),
 }
 
 
